@@ -21,7 +21,7 @@ from core import F, rs, rl, pr
 PROP = "C04"
 
 
-def gen_F(rng, n):
+def gen_F(rng, n, force=None):
     """(coefs, class, in_family): real Laurent coefficient vector of length n+1"""
     r = rng.random()
     v = rng.normal(size=n + 1)
@@ -36,6 +36,9 @@ def gen_F(rng, n):
     else:
         klass = "asymmetric"
     s = rng.random()
+    force = force or {}
+    if "s" in force:
+        s = force["s"]
     if s < 0.7:
         norm = float(rng.uniform(0.05, 0.9))
         bounded = True
@@ -46,14 +49,14 @@ def gen_F(rng, n):
         norm = float(rng.uniform(1.1, 2.5))
         bounded = False
     v = v / np.abs(v).sum() * norm
-    if not bounded and rng.random() < 0.4:
+    if not bounded and (force.get("dominated") if "dominated" in force else rng.random() < 0.4):
         # one coefficient larger than 1 + the sum of the others: |F| > 1 on the WHOLE circle, no real G exists at all
         v = v / np.abs(v).sum() * float(rng.uniform(0.05, 0.6))
         v[int(rng.integers(0, n + 1))] = float(rng.choice([-1, 1])) * float(rng.uniform(1.7, 3.5))
         klass += "/dominated"
     klass = "%s/%s" % (klass, "bounded" if bounded else "unbounded")
     # keep both extreme coefficients above 1e-3 in most cases (the stated family)
-    tiny_ext = rng.random() < 0.16
+    tiny_ext = force.get("tiny") if "tiny" in force else rng.random() < 0.16
     if not tiny_ext:
         for i in (0, -1):
             if abs(v[i]) < 1.5e-3:
@@ -274,6 +277,28 @@ def run(tier, seed):
                 fam2 = fam and (sum(abs(x) for x in F2) <= 0.9) and abs(F2[0]) >= 1e-3 and abs(F2[-1]) >= 1e-3
                 # under an explicit seed vector or, like the call just before, under the library's own draw
                 one(ctx, C, LP, F2, klass + "/near-duplicate", fam2, (vecs[int(rng.integers(0, len(vecs)))] if rng.random() < 0.5 else None), tol)
+    # every CLASS of input in every run, whatever the seed (the plan above draws classes at random): F past 1 on part of the
+    # circle, F dominated by one coefficient (past 1 everywhere), 1-norm just below 1, tiny / exactly-zero extremes - each under
+    # every seed vector, at the default and at the tightest tolerance
+    for n in ((2, 3, 5) if tier == "quick" else (2, 3, 4, 5, 6, 8)):
+        for force in ({"s": 0.95, "dominated": False, "tiny": False}, {"s": 0.95, "dominated": True, "tiny": False},
+                      {"s": 0.8, "tiny": False}, {"s": 0.3, "tiny": True}, {"s": 0.3, "tiny": False}):
+            Fc, klass, fam = gen_F(rng, n, force)
+            ctx.count("class-coverage-block")
+            vecs, complete = P.seed_vectors(rng, n, exh, nsample)
+            for tol in (1e-6, 1e-12):
+                for sv in vecs + [None]:
+                    one(ctx, C, LP, Fc, klass, fam, sv, tol)
+    # tolerances TIGHTER than the pipeline's accuracy at that length (1e-12, 1e-14 for n = 9..30): the answer may be an
+    # exception, never a G that misses the requested tolerance
+    for n in ((9, 12, 16, 20, 30) if tier == "quick" else (9, 10, 12, 14, 16, 20, 24, 30, 40)):
+        for rep in range(2 if tier == "quick" else 6):
+            Fc, klass, fam = gen_F(rng, n, {"s": 0.3 if rep % 2 == 0 else 0.8, "tiny": False})
+            ctx.count("tight-tolerance-block")
+            vecs, complete = P.seed_vectors(rng, n, 2, 3)
+            for tol in (1e-12, 1e-14):
+                for sv in vecs + [None]:
+                    one(ctx, C, LP, Fc, klass + "/tight-tol", fam, sv, tol)
     # threshold-adjacent members of the family: an inner conjugate root pair of 1 - F F~ with imaginary part 1e-8..1e-6
     # (just past a collision of two real roots) - found by bisection, never by sampling
     for n in ([2, 3, 4, 5, 7, 9, 12] if tier == "quick" else list(range(2, 13)) * 4):
